@@ -40,6 +40,9 @@ def gen_cases(tier, seed):
     # ... with a or b a multiple of the group order (bP or aP is the identity)
     for a, b in [(0, 5), (5, 0), (N, 7), (7, N), (2 * N, 3), (0, 0), (N, N), (N - 1, 1), (1, N - 1)]:
         yield "identities", {"a": hex(a), "b": hex(b), "base": hex(rng.randrange(1, N))}
+    # the command line as an entry point for private keys: text that is not the hex / bin text of 32 bytes in [1, n-1] is refused
+    for i in range(4 if q else 40):
+        yield "cli_privkey_text", {"k": hex(rng.randrange(1, N)), "salt": rng.getrandbits(32)}
     # public key derivation
     ks = keys_boundary() + [rng.randrange(1, N) for _ in range(150 if q else 3000)]
     for k in ks:
@@ -69,7 +72,7 @@ def gen_cases(tier, seed):
 
 
 def required(tier):
-    return {"scalar.decided": 40, "scalar.base_identity": 8, "add.decided": 30, "add.rel.neg": 3, "add.rel.same": 3, "add.rel.same_y": 3, "add.rel.same_object": 3, "identities.decided": 20,
+    return {"scalar.decided": 40, "cli.privkey_text_bad": 50, "scalar.base_identity": 8, "add.decided": 30, "add.rel.neg": 3, "add.rel.same": 3, "add.rel.same_y": 3, "add.rel.same_object": 3, "identities.decided": 20,
             "pubkey.decided": 30, "privkey.refused": 150, "privkey.refused_after_valid_use": 100, "keygen.decided": 10, "keygen.draw0": 1,
             "small.pairs": 5000, "small.scalars": 5000, "small.assoc": 20000,
             "contract:point_add.closed": 10000, "contract:point_scalar_mul.closed": 1000}
@@ -168,6 +171,28 @@ def run_case(kind, params, ctx):
         a_bP = em.point_scalar_mul(a, bP)        # bP may be the identity (b = 0, n, 2n ...): a*O = O
         if abP != a_bP:
             ctx.violation("identity/associative-scalar", f"a(bP) != (ab)P for a={a:#x} b={b:#x}")
+        return
+    if kind == "cli_privkey_text":
+        from . import clihelp
+        k = int(params["k"], 16)
+        t = f"{k:064x}"
+        exp = secp.sec1_encode(secp.pub(k), True)
+        r = clihelp.run(["pubkey", "-X", "-1x", "-0x"], t.encode())
+        ctx.count("cli.privkey_text")
+        if not r["ok"] or clihelp.parse_out(r["out"], "hex") != exp:
+            ctx.violation("cli/pubkey-of-valid-key-wrong", f"bits pubkey -X of {t} printed {r['out'][:70]!r} (ret {r['ret']!r})")
+        # the same number of characters, but not 64 hex digits: integer-literal syntax, signs, separators, prefixes
+        bad = [("0x-prefix", "0x" + t[2:]), ("0X-prefix", "0X" + t[2:]), ("plus-sign", "+" + t[1:]), ("minus-sign", "-" + t[1:]), ("underscore", t[:8] + "_" + t[9:]),
+               ("non-hex-letter", t[:5] + "g" + t[6:]), ("0x-prefix-66", "0x" + t), ("hash-prefix", "#" + t[1:]), ("h-suffix", t[:-1] + "h"),
+               ("too-short", t[:62]), ("too-long", t + "00"), ("zero", "0" * 64), ("n", f"{N:064x}"), ("empty", "")]
+        for cls, txt in bad:
+            for arg in ("stdin", "with-newline"):
+                rr = clihelp.run(["pubkey", "-X", "-1x", "-0x"], (txt + ("\n" if arg == "with-newline" else "")).encode())
+                ctx.count("cli.privkey_text_bad")
+                ctx.seen("clipt", (txt, arg))
+                if rr["ok"] and rr["out"].strip():
+                    ctx.violation(f"cli/privkey-text-accepted/{cls}", f"bits pubkey (hex input {txt!r}) printed {rr['out'][:70]!r}")
+        ctx.nontrivial()
         return
     if kind == "pubkey":
         k = int(params["k"], 16)
